@@ -203,6 +203,9 @@ package main
 //@   noframe
 
 //@ func (*MultiEpoch) handleGetBlock
+//@   # C02 (previousBlockhash): the branch that omits previousBlockhash is taken only when the parent slot is not in this
+//@   # epoch (or the block is the genesis slot): stated as a call-site condition on the log call that opens that branch
+//@   fncall klog.V(4).Infof#3 requires !((parentSlot != 0 || slot == 1) && slottools.CalcEpochForSlot(parentSlot) == epochNumber)
 //@   requires ctx != nil && conn != nil && conn.ctx != nil && req != nil
 //@   requires held(multi.mu) == 0 && validEpochSet(multi) && multi.options != nil
 //@   # C03 pass-through (weak): a reply without error was built after (*Epoch).GetBlock(.., slot) returned a block; `slot == params.Slot`
